@@ -1076,4 +1076,107 @@ theorem canonNat_dec (n : Nat) : canonNat true 10 n = canonNat false 10 n := by
   unfold canonNat
   exact List.map_congr_left fun d hd => digitChar_dec d (digits_lt (b := 10) (by omega) n d hd)
 
+/-! ### historical: the routines as they were BEFORE the `fix:` commits (for the witness theorems) -/
+
+/-- hexascii.h before `fix: hex2half accepts lower-case hex digits` -/
+def hex2halfOrig (c : Byte) : Byte := if c.toInt ≤ 57 then c - 48#8 else c - 65#8 + 10#8
+
+def isxdigitC (c : Byte) : Bool :=
+  (48 ≤ c.toNat && c.toNat ≤ 57) || (97 ≤ c.toNat && c.toNat ≤ 102) || (65 ≤ c.toNat && c.toNat ≤ 70)
+
+/-- igris_atou32 before the repairs: `for (c = *buf; (c = *buf) && igris_isxdigit(c); buf++)
+    res = res * base + hex2half(c);  *end = buf - 1;` — the end offset is an `Int` because it can be -1 -/
+def atou32OrigLoop (base : Nat) : List Byte → Nat → Nat → Option (Nat × Int)
+  | [], _, _ => none
+  | c :: cs, res, pos =>
+    if c ≠ 0#8 ∧ isxdigitC c = true then
+      atou32OrigLoop base cs ((res * base + (hex2halfOrig c).toNat) % 2 ^ 32) (pos + 1)
+    else some (res, (pos : Int) - 1)
+
+/-- compat libc atol before the repair of fix-C11: `total = 10 * total + (c - '0')`, then
+    `sign == '-' ? -total : total`; signed overflow = `none` -/
+def atolDigitsOrig : List Byte → Int → Option Int
+  | [], _ => none
+  | c :: cs, total =>
+    if isdigitC c then
+      if inLong (10 * total) && inLong (10 * total + ((c.toNat : Int) - 48)) then
+        atolDigitsOrig cs (10 * total + ((c.toNat : Int) - 48))
+      else none
+    else some total
+
+def atolOrig (m : List Byte) : Option (BitVec 64) :=
+  match skipSpace m with
+  | [] => none
+  | sign :: rest =>
+    let digits := if sign == 0x2D#8 || sign == 0x2B#8 then rest else sign :: rest
+    (atolDigitsOrig digits 0).bind fun total =>
+      if sign == 0x2D#8 then (if inLong (-total) then some (BitVec.ofInt 64 (-total)) else none)
+      else some (BitVec.ofInt 64 total)
+
+theorem inLong_pos (k : Nat) (h : k < 2 ^ 63) : inLong (k : Int) = true := by
+  simp only [inLong, Bool.and_eq_true, decide_eq_true_eq]
+  have : (2 : Int) ^ 63 = ((2 ^ 63 : Nat) : Int) := by norm_cast
+  omega
+
+theorem atolDigitsOrig_spec : ∀ (ds : List Nat) (acc : Nat) (t : Byte) (rest : List Byte),
+    (∀ d ∈ ds, d < 10) → isdigitC t = false → ds.foldl (fun a d => a * 10 + d) acc < 2 ^ 63 →
+    atolDigitsOrig (ds.map (digitChar false) ++ t :: rest) (acc : Int)
+      = some ((ds.foldl (fun a d => a * 10 + d) acc : Nat) : Int) := by
+  intro ds
+  induction ds with
+  | nil => intro acc t rest _ ht _; simp [atolDigitsOrig, ht]
+  | cons d ds ih =>
+    intro acc t rest hlt ht hbound
+    have hd := dec_char_facts d (hlt d (by simp))
+    have hge := foldl10_ge ds (acc * 10 + d)
+    simp only [List.foldl_cons] at hbound
+    have e : 10 * (acc : Int) + (((digitChar false d).toNat : Int) - 48) = ((acc * 10 + d : Nat) : Int) := by
+      rw [hd.2.1]; push_cast; omega
+    have e0 : 10 * (acc : Int) = ((acc * 10 : Nat) : Int) := by push_cast; omega
+    simp only [List.map_cons, List.cons_append, atolDigitsOrig, hd.1, if_true, List.foldl_cons]
+    rw [e, e0, inLong_pos _ (by omega), inLong_pos _ (by omega)]
+    simp only [Bool.and_self, if_true]
+    exact ih (acc * 10 + d) t rest (fun x hx => hlt x (by simp [hx])) ht hbound
+
+theorem atolOrig_spec (z : Int) (hlo : -(2 ^ 63) < z) (hhi : z < 2 ^ 63) (tail : List Byte) :
+    atolOrig (canonInt false 10 z ++ 0#8 :: tail) = some (BitVec.ofInt 64 z) := by
+  have hp : (2 : Int) ^ 63 = ((2 ^ 63 : Nat) : Int) := by norm_cast
+  have hd10 : ∀ d ∈ digits 10 z.natAbs, d < 10 := digits_lt (by omega) _
+  have hval : (digits 10 z.natAbs).foldl (fun a d => a * 10 + d) 0 = z.natAbs := ofDigits_digits (by omega) _
+  have hdig := atolDigitsOrig_spec (digits 10 z.natAbs) 0 0#8 tail hd10 isdigitC_nul (by rw [hval]; omega)
+  rw [hval] at hdig
+  simp only [Int.natCast_zero] at hdig
+  by_cases hneg : z < 0
+  · have hsp : isspaceC 0x2D#8 = false := by decide
+    have h1 : (0x2D#8 == 0x2D#8) = true := by decide
+    simp only [canonInt, hneg, if_true, List.cons_append, List.nil_append, canonNat, atolOrig, skipSpace, hsp,
+      Bool.false_eq_true, if_false, h1, Bool.true_or]
+    rw [hdig]
+    simp only [Option.bind_some]
+    rw [inLong_neg _ (by omega)]
+    simp only [if_true]
+    have : -(z.natAbs : Int) = z := by omega
+    rw [this]
+  · obtain ⟨d, tl, hd, hh⟩ : ∃ d tl, d < 10 ∧ digits 10 z.natAbs = d :: tl := by
+      cases h : digits 10 z.natAbs with
+      | nil => simp [digits] at h; exact absurd h (lsd_ne_nil _ _)
+      | cons d tl => exact ⟨d, tl, hd10 d (by simp [h]), rfl⟩
+    have hf := dec_char_facts d hd
+    rw [hh] at hdig
+    simp only [List.map_cons, List.cons_append] at hdig
+    have htxt : canonInt false 10 z ++ 0#8 :: tail
+        = digitChar false d :: (List.map (digitChar false) tl ++ 0#8 :: tail) := by
+      simp [canonInt, hneg, canonNat, hh]
+    have hss : skipSpace (digitChar false d :: (List.map (digitChar false) tl ++ 0#8 :: tail))
+        = digitChar false d :: (List.map (digitChar false) tl ++ 0#8 :: tail) := by
+      rw [skipSpace, hf.2.2.1]; simp
+    rw [htxt]
+    unfold atolOrig
+    rw [hss]
+    simp only [hf.2.2.2.1, hf.2.2.2.2, Bool.or_self, Bool.false_eq_true, if_false]
+    rw [hdig]
+    simp only [Option.bind_some]
+    have : (z.natAbs : Int) = z := by omega
+    rw [this]
+
 end Igris.C07
